@@ -156,6 +156,7 @@ func routeActionsFromSource() []string {
 	}
 	src, err := os.ReadFile(filepath.Join(repo, "weed", "s3api", "s3api_server.go"))
 	hx.Must(err)
+	unwrapped := regexp.MustCompile(`HandlerFunc\((?:track\()?\s*s3a\.(\w+)`)
 	re := regexp.MustCompile(`s3a\.iam\.Auth\(\s*s3a\.(\w+)\s*,\s*(ACTION_\w+)\s*\)`)
 	consts := map[string]string{
 		"ACTION_READ": s3_constants.ACTION_READ, "ACTION_WRITE": s3_constants.ACTION_WRITE,
@@ -163,7 +164,8 @@ func routeActionsFromSource() []string {
 		"ACTION_LIST": s3_constants.ACTION_LIST,
 	}
 	var out []string
-	for _, line := range strings.Split(string(src), "\n") {
+	text := regexp.MustCompile(`(?s)/\*.*?\*/`).ReplaceAllString(string(src), "")
+	for _, line := range strings.Split(text, "\n") {
 		if strings.HasPrefix(strings.TrimSpace(line), "//") {
 			continue
 		}
@@ -178,6 +180,17 @@ func routeActionsFromSource() []string {
 				name = fmt.Sprintf("(H %d%%N)", k) // abbreviation defined in check/C26.v
 			}
 			out = append(out, hx.Pair(name, coqAction(v)))
+		}
+		// a route registered WITHOUT the Auth wrapper (other than ListBuckets, which authenticates
+		// inside the handler, and the NotFound handler) shows up as an extra row: the comparison
+		// with the model's table then fails
+		if strings.Contains(line, "HandlerFunc(") && !strings.Contains(line, "s3a.iam.Auth(") &&
+			!strings.Contains(line, "s3a.ListBucketsHandler") && !strings.Contains(line, "NotFoundHandler") {
+			if m := unwrapped.FindStringSubmatch(line); m != nil {
+				out = append(out, hx.Pair(hx.Str("UNWRAPPED:"+m[1]), hx.Str("")))
+			} else {
+				out = append(out, hx.Pair(hx.Str("UNWRAPPED:?"), hx.Str("")))
+			}
 		}
 	}
 	return out
@@ -251,11 +264,12 @@ type reqCase struct {
 	ids  []ident
 	spec reqSpec
 	auth authSpec
-	body func() (string, []byte) // optional (content type, body)
+	form formSpec // body of a POST (multipart form), if any
 	kind string
 }
 
 var stub *filerStub
+var caseSeq int
 var routeActions string
 
 func runReqCase(out *hx.Out, c reqCase) {
@@ -266,13 +280,19 @@ func runReqCase(out *hx.Out, c reqCase) {
 	leaves := leafRoutes(router)
 	mk := func() *http.Request {
 		r := build(c.spec, c.auth, now)
-		if c.body != nil {
-			ct, b := c.body()
+		if c.form.Kind != 0 {
+			b := postPolicyBody(c.form, c.spec.Bucket, now)
 			r2 := httptest.NewRequest(r.Method, r.RequestURI, strings.NewReader(string(b)))
 			r2.Host = r.Host
-			r2.Header = r.Header
-			r2.Header.Set("Content-Type", ct)
+			r2.Header = r.Header // Content-Type is part of the spec: it was there when the request was signed
 			r = r2
+		} else if c.spec.Sha256 == streamingSH && r.Method == "PUT" {
+			if b := streamingBody(r, c.auth.Secret, []byte("payload")); b != nil {
+				r2 := httptest.NewRequest(r.Method, r.RequestURI, strings.NewReader(string(b)))
+				r2.Host = r.Host
+				r2.Header = r.Header
+				r = r2
+			}
 		}
 		return r
 	}
@@ -317,12 +337,28 @@ func runReqCase(out *hx.Out, c reqCase) {
 	}
 
 	// (d) the request through the real router; what the filer stand-in saw
-	stub.take()
+	caseSeq++
+	tag := fmt.Sprint(caseSeq)
 	r := mk()
+	r.Header.Set(caseTagHeader, tag) // copied by putToFiler / proxyToFiler: uploads of an earlier case that arrive late are told apart
 	rec := httptest.NewRecorder()
+	stub.take()
 	router.ServeHTTP(rec, r)
-	ops := stub.take()
+	var ops []string
+	for _, op := range stub.take() {
+		if strings.HasPrefix(op, "http ") && !strings.HasSuffix(op, " #"+tag) && !strings.HasSuffix(op, " #") {
+			continue // tagged by an earlier case
+		}
+		ops = append(ops, op)
+	}
+	fwrite := false
+	for _, op := range ops {
+		fwrite = fwrite || isWrite(op)
+	}
 	st, code := respClass(rec)
+	eff := effectiveForm(c.form, r0.Header.Get("Content-Type"))
+	envTerm := fmt.Sprintf("{| e_upload_exists := %s; e_form := %s; e_client_idhdr := %s |}",
+		hx.Bool(r0.URL.Query().Get("uploadId") == knownUpload), coqForm(eff), hx.Pair(hx.Str(c.spec.SpoofId), hx.Bool(c.spec.SpoofAdmin)))
 	idh := r.Header.Get("S3-Identity-Id")
 	admh := r.Header.Get("S3-Is-Admin") != ""
 
@@ -331,9 +367,9 @@ func runReqCase(out *hx.Out, c reqCase) {
 		ids = append(ids, coqIdent(i))
 	}
 	claim := fmt.Sprintf("{| cl_ak := %s; cl_secret := %s; cl_damage := %s |}", hx.Str(c.auth.AK), hx.Str(c.auth.Secret),
-		map[string]string{"intact": "Intact", "tampered": "Tampered", "expired": "Expired", "malformed": "Malformed", "": "Intact"}[c.auth.Damage])
-	term := fmt.Sprintf("ReqCase {| c_ids := %s; c_req := %s; c_claim := %s; i_type := %s; i_direct := %s; i_route := %s; i_resp := %s; i_filer := %s; i_idhdr := %s; i_route_actions := %s |}",
-		hx.List(ids), reqTerm, claim, ty, hx.List(direct), route, hx.Pair(hx.N(uint64(st)), hx.Str(code)), hx.Bool(len(ops) > 0),
+		coqDamage(c.auth.Damage))
+	term := fmt.Sprintf("ReqCase {| c_ids := %s; c_req := %s; c_claim := %s; c_env := %s; i_type := %s; i_direct := %s; i_route := %s; i_resp := %s; i_filer := %s; i_fwrite := %s; i_idhdr := %s; i_route_actions := %s |}",
+		hx.List(ids), reqTerm, claim, envTerm, ty, hx.List(direct), route, hx.Pair(hx.N(uint64(st)), hx.Str(code)), hx.Bool(len(ops) > 0), hx.Bool(fwrite),
 		hx.Pair(hx.Str(idh), hx.Bool(admh)), routeActions)
 
 	var idn []string
@@ -341,13 +377,23 @@ func runReqCase(out *hx.Out, c reqCase) {
 		idn = append(idn, i.Name+"="+i.AK+":"+strings.Join(i.Actions, ","))
 	}
 	canon := strings.Join([]string{c.spec.Method, c.spec.path(), encodeQuery(c.spec.Query, c.spec.EqForm), c.spec.Sha256, c.spec.CType, c.spec.CopySrc,
-		c.auth.Mech, c.auth.AK, c.auth.Secret, c.auth.Damage, strings.Join(idn, ";")}, "|")
+		c.auth.Mech, c.auth.AK, c.auth.Secret, c.auth.Damage, strings.Join(idn, ";"),
+		fmt.Sprint(c.form.Kind, c.form.V2, c.form.AK, c.form.Secret, c.form.Damage), c.spec.SpoofId, fmt.Sprint(c.spec.SpoofAdmin)}, "|")
 	out.Add(term, canon, anyRun || len(ops) > 0, c.kind)
 	out.Count("authtype:"+ty, 1)
 	out.Count("mech:"+c.auth.Mech+"/"+c.auth.Damage, 1)
 	out.Count(fmt.Sprintf("router-status:%d %s", st, code), 1)
 	if len(ops) > 0 {
 		out.Count("filer-reached", 1)
+	}
+	if fwrite {
+		out.Count("filer-upload-reached", 1)
+	}
+	if eff.Kind != 0 {
+		out.Count(fmt.Sprintf("form:kind=%d v2=%v %s", eff.Kind, eff.V2, eff.Damage), 1)
+	}
+	if c.spec.SpoofId != "" || c.spec.SpoofAdmin {
+		out.Count("client-sent-identity-headers", 1)
 	}
 	if route == "None" {
 		out.Count("route:none", 1)
@@ -407,7 +453,21 @@ func pickIds(r *hx.Rng, must *ident) []ident {
 }
 
 func mutate(r *hx.Rng, s reqSpec) reqSpec {
-	switch r.Intn(9) {
+	switch r.Intn(10) {
+	case 9:
+		// another value for an existing multipart parameter (boundary of globalMaxPartID; unknown upload)
+		for k, kv := range s.Query {
+			if kv[0] == "partNumber" {
+				s.Query = append([][2]string{}, s.Query...)
+				s.Query[k][1] = r.PickStr([]string{"100000", "100001", "007", "99999999"})
+				break
+			}
+			if kv[0] == "uploadId" {
+				s.Query = append([][2]string{}, s.Query...)
+				s.Query[k][1] = r.PickStr([]string{"u2", "u1", ""})
+				break
+			}
+		}
 	case 0:
 		s.Method = r.PickStr([]string{"GET", "HEAD", "PUT", "POST", "DELETE", "PATCH"})
 	case 1:
@@ -519,7 +579,41 @@ func genReqCase(r *hx.Rng, i int) reqCase {
 			ids = f
 		}
 	}
-	return reqCase{ids: ids, spec: s, auth: a, kind: "req:" + style}
+	// a multipart form body for POSTs that look like browser uploads
+	var form formSpec
+	if s.Method == "POST" && (t.name == "PostPolicy" || strings.HasPrefix(style, "form-")) && r.Chance(4, 5) {
+		if r.Chance(5, 6) {
+			s.CType = formCType
+		}
+		signer := pool[r.Intn(len(pool))]
+		if len(ids) > 0 && r.Chance(3, 4) {
+			signer = ids[r.Intn(len(ids))]
+		}
+		form = formSpec{Kind: 2, V2: r.Chance(1, 3), AK: signer.AK, Secret: signer.SK, Damage: "intact", Tamper: r.Intn(2),
+			Key: r.PickStr([]string{"up/k", "up/d/k2", "up/"})}
+		switch r.Intn(10) {
+		case 0:
+			form.Kind = 1
+		case 1:
+			form.Secret = r.PickStr([]string{"sk-wrong", "sk-admin", ""})
+		case 2:
+			form.AK = "AKNOTTHERE"
+		case 3:
+			form.Damage = "tampered"
+		case 4:
+			form.Damage = "expired"
+		case 5:
+			if !form.V2 {
+				form.Damage = "malformed"
+			}
+		}
+	}
+	// identity headers sent by the client
+	if r.Chance(1, 6) {
+		s.SpoofAdmin = r.Chance(1, 2)
+		s.SpoofId = r.PickStr([]string{"", "admin", "owner1", "anonymous", "reader"})
+	}
+	return reqCase{ids: ids, spec: s, auth: a, form: form, kind: "req:" + style}
 }
 
 // ---------- IAM policy documents ----------
@@ -614,7 +708,7 @@ func genPolCase(r *hx.Rng) ([]stmt, []string) {
 
 func main() {
 	out := hx.Flags("C26", 600)
-	out.Rule = "request cases: route template (case index mod 23: every route of registerRouter + ListBuckets) x auth style ((index/23) mod 17: none, valid V4 header (own signer / aws-sdk signer), valid V4 presigned (own / aws-sdk), valid V2 header, V2 presigned, wrong secret, unknown key, tampered signature or signed header, expired presign, malformed credential, streaming sha256 header unsigned/signed, multipart-form content type unsigned/signed, JWT/Basic/empty Authorization) x random identity configuration (1-4 of 12 identities incl. Admin, Read, Write:b1, List, Tagging, none, prefix wildcards, optional anonymous identity with 5 action sets, duplicated access keys, no identities) x bucket in {b1,b2,c3}, with random mutations of method/object/query/headers (1/3, repeated); every 7th case is an IAM policy document (0-3 statements, Allow/Deny/other effects, 12 action strings, 15 resource strings incl. malformed ARNs) put on a user with random prior actions; the first cases are the fixed witnesses of finding 0; non-trivial = a handler ran or the filer stand-in saw an operation (request cases), a grant exists (policy cases); distinct = canonical request+identities / document text"
+	out.Rule = "request cases: route template (case index mod 23: every route of registerRouter + ListBuckets) x auth style ((index/23) mod 17: none, valid V4 header (own signer / aws-sdk signer), valid V4 presigned (own / aws-sdk), valid V2 header, V2 presigned, wrong secret, unknown key, tampered signature or signed header, expired presign, malformed credential, streaming sha256 header unsigned/signed, multipart-form content type unsigned/signed, JWT/Basic/empty Authorization) x random identity configuration (1-4 of 12 identities incl. Admin, Read, Write:b1, List, Tagging, none, prefix wildcards, optional anonymous identity with 5 action sets, duplicated access keys, no identities) x bucket in {b1,b2,c3}, with random mutations of method/object/query/headers (1/3, repeated); every 7th case is an IAM policy document (0-3 statements, Allow/Deny/other effects, 12 action strings, 15 resource strings incl. malformed ARNs) put on a user with random prior actions; POSTs that look like browser uploads carry a multipart form (no file / policy signed V2 or V4 by a configured or unknown key, wrong secret, tampered signature or policy, expired policy, malformed credential); streaming styles sign a real V4 seed (x-amz-content-sha256 signed); 1/6 of the requests carry client-sent s3-identity-id / s3-is-admin headers; multipart parameters are mutated (unknown upload, part number around globalMaxPartID); the filer stand-in holds upload u1 and records lookups and uploads separately; the first cases are the fixed witnesses of findings 0, 1, 2 and fixed valid streaming-seed / POST-policy uploads; non-trivial = a handler ran or the filer stand-in saw an operation (request cases), a grant exists (policy cases); distinct = canonical request+identities / document text"
 	flag.Set("logtostderr", "false") // glog: to files under TMPDIR, not the terminal
 	flag.Set("alsologtostderr", "false")
 	stub = newFilerStub()
@@ -623,13 +717,27 @@ func main() {
 
 	admin := pool[0]
 	reader := pool[1]
+	writer1 := pool[2]
 	// fixed witnesses of finding 0 (independent of the seed)
 	fixed := []reqCase{
 		{ids: []ident{admin}, spec: reqSpec{Method: "PUT", Bucket: "b1", Sha256: streamingSH}, auth: authSpec{Mech: "none", Damage: "intact"}, kind: "witness:streaming-putbucket"},
 		{ids: []ident{admin}, spec: reqSpec{Method: "POST", Bucket: "b1", Object: "o", Query: q("uploads", ""), CType: "multipart/form-data"}, auth: authSpec{Mech: "none", Damage: "intact"}, kind: "witness:form-newmultipart"},
 		{ids: []ident{admin, reader}, spec: reqSpec{Method: "PUT", Bucket: "b2", Object: "o", Query: q("tagging", ""), Sha256: streamingSH}, auth: authSpec{Mech: "none", Damage: "intact"}, kind: "witness:streaming-puttagging"},
-		{ids: []ident{admin, reader}, spec: reqSpec{Method: "POST", Bucket: "b1", CType: "multipart/form-data; boundary=vb"}, auth: authSpec{Mech: "none", Damage: "intact"},
-			body: func() (string, []byte) { return postPolicyBody(reader, "b1", "up/k", time.Now()) }, kind: "witness:postpolicy-reader-writes"},
+		// finding 1: a POST policy upload signed by an identity that may only Read
+		{ids: []ident{admin, reader}, spec: reqSpec{Method: "POST", Bucket: "b1", CType: formCType}, auth: authSpec{Mech: "none", Damage: "intact"},
+			form: formSpec{Kind: 2, AK: reader.AK, Secret: reader.SK, Damage: "intact"}, kind: "witness:postpolicy-reader-writes"},
+		{ids: []ident{admin, reader}, spec: reqSpec{Method: "POST", Bucket: "b2", CType: formCType}, auth: authSpec{Mech: "none", Damage: "intact"},
+			form: formSpec{Kind: 2, V2: true, AK: reader.AK, Secret: reader.SK, Damage: "intact"}, kind: "witness:postpolicy-v2-reader-writes"},
+		// finding 0 on PutObjectPart: the upload is looked up in the filer before the seed signature is verified
+		{ids: []ident{admin}, spec: reqSpec{Method: "PUT", Bucket: "b1", Object: "o", Query: q("partNumber", "1", "uploadId", "u1"), Sha256: streamingSH}, auth: authSpec{Mech: "none", Damage: "intact"}, kind: "witness:streaming-part-lookup"},
+		// finding 2: a signed request of a non-admin identity carrying s3-is-admin itself
+		{ids: []ident{admin, reader}, spec: reqSpec{Method: "GET", Bucket: "b1", Object: "o", SpoofAdmin: true}, auth: authSpec{Mech: "v4h", AK: reader.AK, Secret: reader.SK, Damage: "intact"}, kind: "witness:client-sent-is-admin"},
+		// the positive paths of the property text: V4 streaming seed, POST policy (must be verdict 0)
+		{ids: []ident{reader, writer1}, spec: reqSpec{Method: "PUT", Bucket: "b1", Object: "o", Sha256: streamingSH}, auth: authSpec{Mech: "v4h", AK: writer1.AK, Secret: writer1.SK, Damage: "intact"}, kind: "fixed:streaming-seed-writer"},
+		{ids: []ident{reader, writer1}, spec: reqSpec{Method: "PUT", Bucket: "b1", Object: "o", Query: q("partNumber", "2", "uploadId", "u1"), Sha256: streamingSH}, auth: authSpec{Mech: "v4hsdk", AK: writer1.AK, Secret: writer1.SK, Damage: "intact"}, kind: "fixed:streaming-seed-part-writer"},
+		{ids: []ident{reader, writer1}, spec: reqSpec{Method: "PUT", Bucket: "b2", Object: "o", Sha256: streamingSH}, auth: authSpec{Mech: "v4h", AK: writer1.AK, Secret: writer1.SK, Damage: "intact"}, kind: "fixed:streaming-seed-wrong-bucket"},
+		{ids: []ident{reader, writer1}, spec: reqSpec{Method: "POST", Bucket: "b1", CType: formCType}, auth: authSpec{Mech: "none", Damage: "intact"},
+			form: formSpec{Kind: 2, AK: writer1.AK, Secret: writer1.SK, Damage: "intact"}, kind: "fixed:postpolicy-writer"},
 	}
 	for i := 0; i < out.N; i++ {
 		r := root.Fork()
